@@ -126,8 +126,9 @@ def _leaves(o, path, out, depth=0):
 def compare(ref, alt, probe=None):
     """first disagreement between two results (None if they agree). Only leaves present on both
     sides are compared (a lazily filled cache may exist on one side only). probe: a third result,
-    obtained from inputs perturbed at the 1e-14 level - its distance from ref measures how far
-    rounding alone moves each leaf, and ten times that distance is added to the tolerance."""
+    obtained from inputs perturbed at the 1e-14 level - its distance v from ref measures how far
+    rounding alone moves each leaf; 10 v + 10 (v / 1e-14 scale)^2 eps scale is added to the
+    tolerance."""
     a, b, c = {}, {}, {}
     _leaves(ref, "result", a)
     _leaves(alt, "result", b)
@@ -161,7 +162,11 @@ def compare(ref, alt, probe=None):
             fc = vc.astype(float)
             if not np.all(np.isfinite(fc[fin])):
                 continue
-            tol += 10.0 * float(np.max(np.abs(fa[fin] - fc[fin])))
+            v = float(np.max(np.abs(fa[fin] - fc[fin])))
+            # v / (1e-14 scale) estimates the condition number of the call; formulas that go
+            # through an explicit inverse (as the library's do) have a forward rounding error of
+            # up to cond^2 eps, so two differently rounded executions may differ by that much
+            tol += 10.0 * v + 10.0 * 1e12 * v * v / scale
         if err > tol:
             return {"leaf": k, "max_abs_err": err, "err_over_tol": err / tol,
                     "ref": fa, "alt": fb}
@@ -364,10 +369,38 @@ def _is_dynamic(a):
     return hasattr(a, "dtype") and hasattr(a, "ndim") and np.issubdtype(a.dtype, np.floating)
 
 
+def _worst_condition(*objs):
+    """largest condition number among the symmetric [.., D, D] float leaves (covariances and
+    precisions of operands and results; inf for an indefinite one)."""
+    worst = 1.0
+    for o in objs:
+        leaves = {}
+        _leaves(o, "o", leaves)
+        for k, a in leaves.items():
+            if isinstance(a, str) or a.dtype.kind != "f" or a.ndim < 2 or a.shape[-1] != a.shape[-2] \
+                    or a.shape[-1] < 2 or not np.all(np.isfinite(a)):
+                continue
+            if not np.allclose(a, np.swapaxes(a, -1, -2), rtol=1e-6, atol=0.0):
+                continue
+            w = np.linalg.eigvalsh(0.5 * (a + np.swapaxes(a, -1, -2)).reshape(-1, *a.shape[-2:]))
+            if np.any(w[:, -1] <= 0):
+                continue  # a singular precision of a plain factor: nothing is inverted
+            nz = w[:, 0] > 1e-13 * w[:, -1]  # exactly rank-deficient precisions are by design
+            if np.any(nz):
+                worst = max(worst, float(np.max((w[:, -1] / np.where(nz, w[:, 0], 1.0))[nz])))
+    return worst
+
+
 def _run_jit(fn, key, res, self0, args0, kwargs0, rec, report, count):
     import jax
 
     if not _is_libobj(self0):
+        return
+    # differently rounded executions of an information-form update agree to about eps times the
+    # condition number of the matrices it inverts: judged where that stays below 1e-8 (the same
+    # kind of guard the value oracles use; the unstable cases are theirs to exclude or judge)
+    if _worst_condition(self0, args0, kwargs0, res) > 1e6:
+        rec.count("form_jit_out_of_domain")
         return
     pos = [i for i, a in enumerate(args0) if _is_dynamic(a)]
     kws = [k for k, a in kwargs0.items() if _is_dynamic(a)]
@@ -403,6 +436,125 @@ def _run_jit(fn, key, res, self0, args0, kwargs0, rec, report, count):
     if bad is not None:
         report("FORM", "jit-value", key, dict(bad, variant="the same call under jax.jit with "
                                               "receiver and numeric arguments traced"))
+
+
+# ------------------------------------------------------------------ recall and sibling variants
+def _alt_args(args, kwargs):
+    """the same call shape with other values: float arrays affinely changed, integer index arrays
+    reversed. None if nothing can be varied."""
+    from jax import numpy as jnp
+
+    changed = [False]
+
+    def alt(a):
+        if _is_libobj(a) or not (hasattr(a, "dtype") and hasattr(a, "ndim")) or a.ndim == 0:
+            return a
+        if np.issubdtype(a.dtype, np.floating):
+            changed[0] = True
+            return jnp.asarray(np.asarray(a) * 1.37 + 0.11)
+        if np.issubdtype(a.dtype, np.integer) and a.ndim == 1 and a.shape[0] > 1:
+            changed[0] = True
+            return jnp.asarray(np.asarray(a)[::-1].copy())
+        return a
+
+    a2 = tuple(alt(a) for a in args)
+    k2 = {k: alt(v) for k, v in kwargs.items()}
+    return (a2, k2) if changed[0] else None
+
+
+def _run_recall(fn, key, res, self0, args0, kwargs0, rec, report, count):
+    """on one clone: the call with other argument values first, then the original call again -
+    the second answer must be the original answer (a memo keyed by too few of the arguments)."""
+    alt = _alt_args(args0, kwargs0)
+    if alt is None:
+        return
+    c = clone_state(self0)
+    try:
+        fn(c, *alt[0], **alt[1])
+    except Exception:
+        rec.count("form_recall_alt_raises")
+        return
+    try:
+        again = fn(c, *args0, **kwargs0)
+    except Exception as e:
+        report("FORM", "recall-raises", key, {"error": repr(e)[:200]})
+        return
+    count("FORM", key)
+    rec.evaluations += 1
+    rec.count("form_recall_evaluated")
+    bad = compare(res, again)
+    if bad is not None:
+        report("FORM", "recall-value", key, dict(bad, variant="same call after a call with other "
+                                                 "argument values on the same object"))
+
+
+INTEGRATE_NAMES = {
+    "1": "integral", "x": "integrate_x", "(Ax+a)": "integrate_general_linear",
+    "xx'": "integrate_xxT", "(Ax+a)'(Bx+b)": "integrate_general_quadratic_inner",
+    "(Ax+a)(Bx+b)'": "integrate_general_quadratic_outer",
+    "(Ax+a)(Bx+b)'(Cx+c)": "integrate_general_cubic_inner",
+    "(Ax+a)'(Bx+b)(Cx+c)'": "integrate_general_cubic_outer",
+    "x(A'x + a)x'": "integrate_cubic_outer", "xb'xx'": "integrate_xbxx",
+    "(Ax+a)'(Bx+b)(Cx+c)'(Dx+d)": "integrate_general_quartic_inner",
+    "(Ax+a)(Bx+b)'(Cx+c)(Dx+d)'": "integrate_general_quartic_outer",
+}
+
+
+def _siblings(name, self0, args0, kwargs0):
+    """[(label, thunk, transform of the original result)] - other public entry points that the
+    documentation defines as the same quantity."""
+    from jax import numpy as jnp
+
+    factor, measure, pdf, conditional, approx, trunc = _lib()
+    out = []
+    ident = lambda r: r
+    if isinstance(self0, trunc.TruncatedGaussianMeasure):
+        return out
+    if name == "evaluate_ln" and isinstance(self0, factor.ConjugateFactor):
+        for sib in ("evaluate", "__call__"):
+            out.append((sib, lambda c, sib=sib: getattr(c, sib)(*args0, **kwargs0), jnp.exp))
+    elif name == "log_integral" and isinstance(self0, measure.GaussianMeasure):
+        out.append(("log_integral_light", lambda c: c.log_integral_light(), ident))
+        out.append(("integral", lambda c: c.integral(), jnp.exp))
+        out.append(("integral_light", lambda c: c.integral_light(), jnp.exp))
+        out.append(("integrate('1')", lambda c: c.integrate("1"), jnp.exp))
+    elif name == "integrate" and isinstance(self0, measure.GaussianMeasure):
+        expr = args0[0] if args0 else kwargs0.get("expr", "1")
+        meth = INTEGRATE_NAMES.get(expr)
+        kw = {k: v for k, v in kwargs0.items() if k != "expr"}
+        if meth is not None:
+            out.append((meth, lambda c: getattr(c, meth)(**kw), ident))
+    elif name == "multiply" and isinstance(self0, measure.GaussianMeasure) and len(args0) == 1 \
+            and not kwargs0.get("update_full", False):
+        out.append(("__mul__", lambda c: c * args0[0], ident))
+    elif name == "condition_on" and isinstance(self0, pdf.GaussianPDF) and len(args0) == 1:
+        dy = np.asarray(args0[0])
+        dx = np.array([i for i in range(self0.D) if i not in set(dy.tolist())])
+        if dx.size and dy.size:
+            out.append(("condition_on_explicit",
+                        lambda c: c.condition_on_explicit(jnp.asarray(dy), jnp.asarray(dx)), ident))
+    return out
+
+
+def _run_siblings(name, key, res, self0, args0, kwargs0, rec, report, count):
+    for label, thunk, tf in _siblings(name, self0, args0, kwargs0):
+        c = clone_state(self0)
+        try:
+            r = thunk(c)
+        except Exception as e:
+            report("FORM", "sibling-raises", f"{key}:{label}", {"error": repr(e)[:200]})
+            continue
+        count("FORM", key)
+        rec.evaluations += 1
+        rec.count("form_sibling_evaluated")
+        try:
+            want = tf(res)
+        except Exception:
+            continue
+        bad = compare(want, r)
+        if bad is not None:
+            report("FORM", "sibling-value", f"{key}:{label}",
+                   dict(bad, variant=f"{label} against {name} on the same object and arguments"))
 
 
 def run(fn, name, key, res, pre, state, report, count):
@@ -448,6 +600,11 @@ def run(fn, name, key, res, pre, state, report, count):
     # traced arguments (pytrees), everything else (strings, index arrays, flags) closed over
     if n_call <= FIRST_JIT and _jit_selected(key):
         _run_jit(fn, key, res, self0, args0, kwargs0, rec, report, count)
+    # ---- recall and sibling variants
+    if n_call <= FIRST or n_call % EVERY == 0:
+        if _is_libobj(self0):
+            _run_recall(fn, key, res, self0, args0, kwargs0, rec, report, count)
+            _run_siblings(name, key, res, self0, args0, kwargs0, rec, report, count)
     # ---- int variant
     cands = _candidates(self0, args0, kwargs0)
     if not cands:
